@@ -162,6 +162,27 @@ def regfam_probes(ctx, d):
             other = rng.choice([w for w in letters[l1] if w != w_use] or [w_use])
             d.run_pattern([{"add": [1, name]}, {"mov": [name + sfx(other), name + sfx(w_use2)]}], "base", True)
             ctx.event("regfam_probes")
+    # a FIRST occurrence with every width suffix, for every family: it binds only a register printed at that width
+    # (identical at every seed: one listing per family with every register of the family at every width)
+    for prefix, letters in fams.items():
+        insts, addr = [], 0x401000
+        regs = [(l, w, nm) for l, ws_ in letters.items() for w, nm in ws_.items()]
+        for l, w, nm in regs:
+            insts.append(L.SInst(addr, "inc", [nm], None, None, 3))
+            insts.append(L.SInst(addr + 3, "dec", [nm], None, None, 3))
+            addr += 6
+        prep = dsl.Prepared(d.ws, insts, rng)
+        ctx.ran()
+        if not prep.verify(d.ws):
+            ctx.inconc("parser disagreement on synthetic listing")
+            continue
+        d.prep, d.style = prep, "regfam-first-occurrence-probe"
+        for w in sorted({w for _, w, _ in regs}):
+            name = prefix + rng.choice(["-1", "", "_x"])
+            sf = "." + (w.upper() if rng.random() < 0.5 else w)
+            d.run_pattern([{"inc": [name + sf]}, {"dec": [name + sf]}], "base", True)
+        d.run_pattern([{"inc": [prefix + "-9"]}, {"dec": [prefix + "-9.64"]}], "base", True)
+        ctx.event("regfam_first_occurrence_probes")
     # the same capture used as base / index register of a memory operand (64-bit names): definition outside, use inside a $deref
     # and the other way round; the other register of the family must not match
     for prefix, letters in fams.items():
